@@ -17,7 +17,7 @@ from corr import logix_gen as lg
 from corr import c08_wire as w
 from corr import c08_gen as g
 from corr import c08_run as run
-from corr.c03 import rand_req
+from corr.c03 import rand_req, fit_val
 
 NPROC = int(os.environ.get("VERIF_PROCS", "0") or 0) or min(16, os.cpu_count() or 1)
 
@@ -27,7 +27,7 @@ NPROC = int(os.environ.get("VERIF_PROCS", "0") or 0) or min(16, os.cpu_count() o
 # well-formed, accepted write")
 # ------------------------------------------------------------------------------------------------
 def rand_req_simple(rng, tg):
-    from corr.c03 import rand_req
+    from corr.c03 import rand_req, fit_val
     for _ in range(50):
         r = rand_req(rng, tg, multi=False, invalid=0)
         if r["op"] != "mu":
@@ -50,6 +50,14 @@ class Spec(lg.ArraySpec):
         op = r["op"]
         if op not in ("wt", "wf", "ss") or rep["status"] != 0:
             return None                     # reads and refused writes must not change anything (the dump check)
+        # an acknowledged write must be a complete request: the very bytes it was executed from must end with
+        # type / count [/ offset] and exactly the whole elements written -- nothing cut off, nothing left over
+        raw = r.get("_raw")
+        if raw is None:
+            return "a write was acknowledged whose request bytes never reached the executing object"
+        why = w.write_is_complete(r, bytes.fromhex(raw))
+        if why:
+            return f"a tag was written from a request that is not a complete write: {why}: {raw}"
         if op == "ss":
             tgt = w.py_resolve(self.sym, r["path"], "no")
             if not r["path"] or r["path"][-1][0] != "a" or tgt is None:
@@ -126,6 +134,11 @@ def token_for(frame_bytes, rec, symbols, objs, reply_frame):
     cpline = "-"
     if cp is not None:
         cpline = ("!" if eff else "") + w.req_line(cp)
+    if sd is not None and rec.get("oversize"):
+        # refused for its size: answered (status 0x65), not executed
+        return "D" + (lc.hexs(reply_frame) if reply_frame is not None else "-") + ":" + fate, fate + "-", "D"
+    if rec.get("oversize"):
+        return "O", fate + "-", "O"
     if sd is not None:
         same = cp is not None and not eff and w.req_line(sd["req"]) == w.req_line(cp)
         tok = "D" + (lc.hexs(reply_frame) if reply_frame is not None else "-") + ":" + fate
@@ -213,7 +226,7 @@ def _run_case(case, dev):
                 if not other[1].is_alive():
                     break
                 threading.Event().wait(0.0005)
-        sess, th, conn, ctl = run.run_server(dev, chunks, addr)
+        sess, th, conn, ctl = run.run_server(dev, chunks, addr, size=case.get("size"))
         th.join(120)
         steps = run.Counter.count
         if th.is_alive():
@@ -265,7 +278,8 @@ def _run_case(case, dev):
                 continue
             n0 = len(sess.calls)
             try:
-                res = sess.process(("10.0.0.1", 40000), data)
+                res = (sess.process(("10.0.0.1", 40000), data, size=case["size"]) if case.get("size") is not None
+                       else sess.process(("10.0.0.1", 40000), data))
             except run.Hang:
                 raise
             except BaseException:
@@ -328,6 +342,13 @@ def _run_case(case, dev):
     timeline = sorted([r for r in calls + bystander_calls if "seq" in r], key=lambda r: r["seq"])
     for rec in timeline:
         cp, members, cip, eff = rec["cp"]
+        if rec.get("oversize"):
+            # longer than the configured --size limit: to be refused (encapsulation status 0x65), so it accounts for
+            # no change whatever it carries
+            if members:
+                complaints.append(f"frame seq {rec['seq']}: a request longer than the size limit {case.get('size')} "
+                                  f"was executed ({w.req_line(cp)[:80]})")
+            members = []
         for m, mreply in members:
             why = spec.apply(m, mreply)
             if why:
@@ -888,6 +909,10 @@ class C08(Suite):
                     chunks.append(g.OTHER_VALID["fwd_close"].hex())
             yield {"mode": "p", "budget": 488, "tags": tg, "chunks": chunks, "mut": "connected"}
 
+        # 9. bundles with a member cut off inside a data element (all outer lengths consistent), writes whose
+        #    later values do not fit the tag's type, and the --size limit
+        yield from self.gen_round2(quick, rng)
+
         # 8. datagrams from 2-3 peers through the real UDP loop
         yield from self.gen_udp(quick, rng)
 
@@ -911,6 +936,93 @@ class C08(Suite):
                 b = struct.pack("<HH", rng.choice([0x6f, 0x70, 0x65, 0x63, 0x04, 0x01, 0x66]), ln - 24) + b[4:]
             yield {"mode": "s", "budget": 488, "tags": tg, "chunks": [x.hex() for x in g.chunked(rng, b)], "peer": n,
                    "mut": "noise"}
+
+    def gen_round2(self, quick, rng):
+        def bundle(ms):
+            off = 2 + 2 * len(ms)
+            offs = []
+            for m in ms:
+                offs.append(off)
+                off += len(m)
+            return (b"\x0a" + w.enc_epath([["c", 2], ["i", 1]]) + struct.pack("<H", len(ms))
+                    + b"".join(struct.pack("<H", o) for o in offs) + b"".join(ms))
+
+        def framed(req, rng):
+            return w.enc_send(w.enc_unconnected(req) if rng.random() < 0.7 else req)
+
+        # (a) a member that is a write cut off mid-element, as last / middle / only member
+        for _ in range(60 if quick else 1500):
+            tg = lg.rand_tags(rng, max_tags=3, types=lc.FIXED)
+            chunks = []
+            for _ in range(rng.randint(2, 8)):
+                t = rng.choice(tg)
+                siz = lc.SIZES[t["type"]]
+                n = rng.randint(1, min(t["len"], 4))
+                op = rng.choice(["wt", "wf"])
+                r = {"op": op, "path": [["s", t["name"]]], "ty": lc.TYPES[t["type"]], "n": n,
+                     "vals": [fit_val(rng, t["type"], t["type"]) for _ in range(n)]}
+                if op == "wf":
+                    r["off"] = 0
+                full = w.enc_request(r)
+                cut = rng.randint(1, max(siz - 1, 1)) if siz > 1 else 1
+                if rng.random() < 0.3:
+                    cut += siz * rng.randint(0, n - 1)
+                part = full[:len(full) - cut]
+                other = [w.enc_request(rand_req_simple(rng, tg)) for _ in range(rng.randint(0, 2))]
+                k = rng.randint(0, len(other))
+                chunks.append(framed(bundle(other[:k] + [part] + other[k:]), rng).hex())
+            yield {"mode": "p", "budget": 488, "tags": tg, "chunks": chunks, "mut": "member-cut"}
+
+        # (b) a permitted wider / unsigned request type whose first value fits the tag and a later one does not, then
+        #     reads of that tag -- in this session and (mode s: the read-back) a new one
+        wide = {"SINT": ["USINT"], "INT": ["USINT", "UINT"], "DINT": ["UINT", "UDINT"], "LINT": ["UDINT", "ULINT"],
+                "USINT": ["BOOL"], "UINT": ["USINT"], "UDINT": ["UINT"], "ULINT": ["UDINT"]}
+        for k in range(60 if quick else 1200):
+            tagty = rng.choice(["SINT", "INT", "DINT", "LINT"]) if rng.random() < 0.8 else rng.choice(sorted(wide))
+            reqty = rng.choice(wide[tagty])
+            ln = rng.choice([2, 3, 5, 8])
+            tg = [{"name": "W", "type": tagty, "len": ln, "addr": rng.choice([None, [0x93, 1, 2]])}]
+            n = rng.randint(2, ln)
+            hi = lc.RANGES[reqty][1] if reqty != "BOOL" else 1
+            vals = [rng.choice([0, 1, 5, lc.RANGES[tagty][1]]) if reqty != "BOOL" else True for _ in range(n)]
+            for j in sorted(rng.sample(range(1, n), rng.randint(1, n - 1))):
+                vals[j] = hi if reqty != "BOOL" else True
+            vals = [min(v, hi) if reqty != "BOOL" else v for v in vals]
+            wr = {"op": rng.choice(["wt", "wf"]), "path": [["s", "W"]], "ty": lc.TYPES[reqty], "n": n, "vals": vals}
+            if wr["op"] == "wf":
+                wr["off"] = 0
+            rd = {"op": "rt", "path": [["s", "W"]], "n": ln}
+            frames = [g.OTHER_VALID["register"], bytes(g.b_frame(wr).b), bytes(g.b_frame(rd).b)]
+            if k % 2:
+                yield {"mode": "s", "budget": 488, "tags": tg, "chunks": [b"".join(frames).hex()], "peer": k,
+                       "mut": "wide-later"}
+            else:
+                yield {"mode": "p", "budget": 488, "tags": tg, "chunks": [f.hex() for f in frames], "mut": "wide-later"}
+
+        # (c) --size N: requests just below / at / above the limit, valid and hostile, streams and single frames
+        for k in range(80 if quick else 2000):
+            tg = lg.rand_tags(rng, max_tags=3)
+            frames, lens = [], []
+            for _ in range(rng.randint(1, 6)):
+                if rng.random() < 0.75:
+                    fb, _r = g.valid_frame(rng, tg, invalid=0.05)
+                    b = bytes(fb.b)
+                else:
+                    _kind, b = self.hostile(rng, tg)
+                if b:
+                    frames.append(b)
+                    if len(b) > 24:
+                        lens.append(len(b) - 24)
+            if not frames:
+                continue
+            base = rng.choice(lens) if lens else 40
+            size = max(base + rng.choice([-9, -1, -1, 0, 0, 1, 30]), 1)
+            if k % 2:
+                yield {"mode": "s", "budget": 488, "tags": tg, "size": size, "peer": k, "mut": "size",
+                       "chunks": [x.hex() for x in g.chunked(rng, g.OTHER_VALID["register"] + b"".join(frames))]}
+            else:
+                yield {"mode": "p", "budget": 488, "tags": tg, "size": size, "mut": "size",
+                       "chunks": [f.hex() for f in frames]}
 
     def gen_udp(self, quick, rng):
         def ctxd(b, rng):
@@ -1020,7 +1132,8 @@ class C08(Suite):
         if res["tagline"] is None:
             return "c08-not-run"
         chunks = res.get("chunks", c.get("chunks"))
-        return (f"c08 {c['mode']} {c['budget']} {res['tagline']} {res.get('pre', '-')} "
+        return (f"c08 {c['mode']}{c['size'] if c.get('size') is not None else ''} {c['budget']} {res['tagline']} "
+                f"{res.get('pre', '-')} "
                 f"{','.join(chunks) if chunks else '-'} {res['info']}")
 
     def oracle(self, c, out):
@@ -1031,7 +1144,7 @@ class C08(Suite):
             return self.model_line(c)
         if c["mode"] == "u":
             return json.dumps({k: c[k] for k in ("mode", "budget", "tags", "dgrams")}, sort_keys=True)
-        return json.dumps({k: c[k] for k in ("mode", "budget", "tags", "chunks")}, sort_keys=True)
+        return json.dumps({k: c[k] for k in ("mode", "budget", "tags", "chunks", "size") if k in c}, sort_keys=True)
 
     def nontrivial(self, c, out):
         if c["mode"] == "e":
@@ -1081,7 +1194,7 @@ class C08(Suite):
             if len(c["input"]) >= 2:
                 yield dict(c, input=c["input"][:-2])
             return
-        base = {k: c[k] for k in ("mode", "budget", "tags", "chunks", "peer", "mut") if k in c}
+        base = {k: c[k] for k in ("mode", "budget", "tags", "chunks", "peer", "mut", "size") if k in c}
         ch = c["chunks"]
         for i in range(len(ch)):
             if len(ch) > 1:
